@@ -36,7 +36,8 @@ PUNCH = {
     "h0": ([], ['10 PUNCH 4.5, "t"']),                                  # no headings at all
     "h2cond": (["a", "b"], ['10 PUNCH 1.25', '20 IF STEP_NO > 1 THEN PUNCH STEP_NO']),   # PUNCH in only some rows
 }
-ROWS = ["init", "react3", "late", "inverse"]
+ROWS = ["init", "react3", "late", "inverse", "advect", "transport", "kinetics"]
+NEWROWS = ("advect", "transport", "kinetics")     # rows punched by ADVECTION / TRANSPORT / KINETICS (their own identifier columns)
 BLOCKS = [[], [1], [2], [5], [1, 2], [2, 5], [5, 1]]
 USERS_ALL = [1, 2, 5]
 
@@ -66,6 +67,15 @@ def make_input(case):
         for n in case["blocks"]:
             t += ["USER_PUNCH %d" % n, " -headings a b c d late", ' 10 PUNCH 1, 2, 3, 4, "L"']
         t += ["USE solution 1", "REACTION 1", " NaCl 1", " 1 mmol in 2 steps", "END"]
+    if case["rows"] in ("advect", "transport"):
+        t += ["SOLUTION 0", " pH 7 charge", " Na 2", " Cl 2", "SOLUTION 2-3", " pH 7 charge", " Na 1", " Cl 1", " Ca 0.5", " C 1"]
+        if case["rows"] == "advect":
+            t += ["ADVECTION", " -cells 3", " -shifts 2", " -punch_cells 1-3", " -punch_frequency 1", "END"]
+        else:
+            t += ["TRANSPORT", " -cells 3", " -shifts 2", " -lengths 0.5", " -dispersivities 0.05", " -time_step 100", " -punch_cells 1-3", " -punch_frequency 1", "END"]
+    if case["rows"] == "kinetics":
+        t += ["RATES", " Kreact", " -start", " 10 SAVE 1e-6 * TIME", " -end", "USE solution 1", "KINETICS 1", " Kreact", " -formula NaCl 1", " -m 1",
+              " -steps 10 20 30", "INCREMENTAL_REACTIONS true", "END"]
     if case["rows"] == "inverse":
         t += ["SOLUTION 2", " pH 8", " Na 2.2", " Cl 2", " Alkalinity 0.2", "END",
               "INVERSE_MODELING 1", " -solutions 1 2", " -phases", "  Halite", " -uncertainty 0.05", "END",
@@ -403,14 +413,18 @@ def cases(tier):
         for rows in ROWS:
             if rows == "inverse" and (tier == "quick" and blocks != [2]):
                 continue
+            if rows in NEWROWS and blocks not in ([1], [1, 2]) and tier == "quick":
+                continue
             for punch in PUNCH:
+                if rows in NEWROWS and punch not in (("none", "h2ns") if tier == "quick" else ("none", "h2ns", "h1many", "h2cond")):
+                    continue
                 for hp in (0, 1):
                     osets = optsets
                     if tier == "quick" and (len(blocks) == 2 or rows == "late"):
                         osets = [o for o in optsets if len(o) <= 1]
                     if tier == "thorough" and (len(blocks) == 2 or rows == "late"):
                         osets = [o for o in optsets if len(o) <= 2]
-                    if rows == "inverse":
+                    if rows == "inverse" or rows in NEWROWS:
                         osets = [o for o in optsets if len(o) <= 1]
                     for opts in osets:
                         for sw, cur in switch_states(blocks, tier):
